@@ -79,7 +79,10 @@ WellFormed ==
   \* every dependency edge is justified by a required state (or leads to the object's creation / the shared root)
   /\ \A e \in SetupE : Note(NodeOf(e[2]).root \/ NodeOf(e[2]).flat \/ NodeOf(e[1]).flat \/
                             \E k \in 1..Len(NodeOf(e[1]).gets) : NodeOf(e[1]).gets[k][1] = e[3] /\
-                                 (<<e[3], NodeOf(e[1]).gets[k][2]>> \in Pairs(NodeOf(e[2]).sets) \/ NodeOf(e[1]).gets[k][2] \in Rootish),
+                                 (<<e[3], NodeOf(e[1]).gets[k][2]>> \in Pairs(NodeOf(e[2]).sets)
+                                  \* an unspecified / root state is provided by the object's creation node only (the source of clones
+                                  \* keeps its unresolved dependency and is never run)
+                                  \/ (NodeOf(e[1]).gets[k][2] \in Rootish /\ (NodeOf(e[2]).objroot \/ NodeOf(e[1]).clonesrc))),
                             "C06", <<"dependency-without-required-state", e>>)
   \* one network object, exactly the vms the parameters name
   /\ \A i \in Composite : /\ Note(NodeOf(i).netobjs = 1 /\ Len(NodeOf(i).nets) = 1, "C06", <<"not-exactly-one-net", i>>)
